@@ -1,8 +1,113 @@
-/- Driver handler owned by property C17: `c17 <args…>` requests. -/
+/- Driver handler owned by property C17: `c17 <args…>` requests.
+
+   Strings travel as `x<hex of the UTF-8 bytes>`; answers re-encode with the
+   model's own `utf8`, so the encoder is compared with Rust's on every answer.
+
+     c17 bytes.len|chars.len|lines.len xHEX          → N
+     c17 bytes.get|chars.get|lines.get xHEX IDX      → none | some CP
+     c17 bytes.slice|chars.slice|lines.slice xHEX I J → none | some xHEX | panic
+     c17 bytes.list xHEX → list B…   chars.list → list CP…   lines.list → list xHEX…
+     c17 spec.bytes.get|spec.chars.get xHEX I        → none | some CP
+     c17 spec.lines.get xHEX N                        → none | some xHEX
+     c17 spec.bytes.slice|spec.chars.slice|spec.lines.slice xHEX I J → none | some xHEX
+     c17 spec.lines.len xHEX → N     spec.lines.list xHEX → list xHEX…
+     c17 boundary xHEX I → none | some K
+     c17 buf new|from:xHEX (c:CP | s:xHEX)*           → xHEX
+-/
 import Driver.Util
+import RotoV.Model.Strings
 
 namespace Driver.C17
+open RotoV RotoV.Strings
 
-def handle (_args : List String) : String := "bad-op"
+def hexDigit (n : Nat) : Char := "0123456789abcdef".toList.getD n '?'
+
+def hexOf (bs : List UInt8) : String :=
+  String.ofList (bs.flatMap fun b => [hexDigit (b.toNat / 16), hexDigit (b.toNat % 16)])
+
+def encStr (s : List Char) : String := "x" ++ hexOf (utf8 s)
+
+def decStr (w : String) : Option (List Char) :=
+  match w.toList with
+  | 'x' :: rest =>
+    match unhex (String.ofList rest) with
+    | some bs => (String.fromUTF8? ⟨bs.toArray⟩).map String.toList
+    | none => none
+  | _ => none
+
+def optChar : Option Char → String
+  | none => "none"
+  | some c => s!"some {c.toNat}"
+
+def optStr : Option (List Char) → String
+  | none => "none"
+  | some s => "some " ++ encStr s
+
+def resOptStr : Res (Option (List Char)) → String
+  | .panic => "panic"
+  | .ok o => optStr o
+
+def listOut (items : List String) : String := " ".intercalate ("list" :: items)
+
+def bufOp (w : String) : Option BufOp :=
+  match w.toList with
+  | 'c' :: ':' :: rest =>
+    (String.ofList rest).toNat?.bind fun n =>
+      if n < 0xD800 ∨ (0xDFFF < n ∧ n < 0x110000) then some (.pushChar (Char.ofNat n)) else none
+  | 's' :: ':' :: rest => (decStr (String.ofList rest)).map .pushString
+  | _ => none
+
+def bufInit (w : String) : Option (List Char) :=
+  if w = "new" then some bufNew
+  else match w.toList with
+    | 'f' :: 'r' :: 'o' :: 'm' :: ':' :: rest => (decStr (String.ofList rest)).map bufFrom
+    | _ => none
+
+def handle (args : List String) : String :=
+  match args with
+  | "buf" :: init :: ops =>
+    match bufInit init, ops.mapM bufOp with
+    | some st, some log => encStr (bufRun st log)
+    | _, _ => "bad-op"
+  | [op, sx] =>
+    match decStr sx with
+    | none => "bad-op"
+    | some s =>
+      match op with
+      | "bytes.len" => toString (bytesLen s)
+      | "chars.len" => toString (charsLen s)
+      | "lines.len" => toString (linesLen s)
+      | "spec.lines.len" => toString (specLinesLen s)
+      | "bytes.list" => listOut ((bytesList s).map fun b => toString b.toNat)
+      | "chars.list" => listOut ((charsList s).map fun c => toString c.toNat)
+      | "lines.list" => listOut ((linesList s).map encStr)
+      | "spec.lines.list" => listOut ((specLinesList s).map encStr)
+      | _ => "bad-op"
+  | [op, sx, ix] =>
+    match decStr sx, ix.toNat? with
+    | some s, some i =>
+      match op with
+      | "bytes.get" => optChar (bytesGet s i)
+      | "chars.get" => optChar (charsGet s i)
+      | "lines.get" => optChar (linesGet s i)
+      | "spec.bytes.get" => optChar (specBytesGet s i)
+      | "spec.chars.get" => optChar (specCharsGet s i)
+      | "spec.lines.get" => optStr (specLinesGet s i)
+      | "boundary" => match boundaryIdx s i with | none => "none" | some k => s!"some {k}"
+      | _ => "bad-op"
+    | _, _ => "bad-op"
+  | [op, sx, ix, jx] =>
+    match decStr sx, ix.toNat?, jx.toNat? with
+    | some s, some i, some j =>
+      match op with
+      | "bytes.slice" => resOptStr (bytesSlice s i j)
+      | "chars.slice" => resOptStr (charsSlice s i j)
+      | "lines.slice" => resOptStr (linesSlice s i j)
+      | "spec.bytes.slice" => optStr (specBytesSlice s i j)
+      | "spec.chars.slice" => optStr (specCharsSlice s i j)
+      | "spec.lines.slice" => optStr (specLinesSlice s i j)
+      | _ => "bad-op"
+    | _, _, _ => "bad-op"
+  | _ => "bad-op"
 
 end Driver.C17
